@@ -214,6 +214,13 @@ Proof.
 Qed.
 Print Assumptions C10_global_state_classified.
 
+(* 8d. values handed out by caches are returned by reference (a BoundsMap is a dict of lists): every
+       in-place mutation of a not-obviously-fresh object and every aliasing store in the value /
+       type-object / signature / typevar / arg_spec / checker modules is one of the audited rows *)
+Theorem C10_mutation_sites_pinned : mutation_sites = pinned_mutation_sites.
+Proof. apply keys_eqb_eq. exact mutation_sites_are_pinned. Qed.
+Print Assumptions C10_mutation_sites_pinned.
+
 (* 9. the inventory regenerated from the current source is completely classified,
       the audit table has no stale entry, and the residual sites are exactly the three named ones *)
 Theorem C10_all_sites_classified : forallb classified sites = true /\ audit_live sites = true.
